@@ -65,6 +65,12 @@ Definition dnorm (a : D) : D :=
   | Zneg p => let '(q, e) := strip_pos (Pos.to_nat (Pos.size p)) p (snd a) in (Zneg q, e)
   end.
 
+(** what the harness emits for a finite double: a primitive hexadecimal float
+    literal converted exactly (and normalised) inside vm_compute.  Parsing a
+    float literal is ten times cheaper than parsing a (mantissa, exponent)
+    pair of integer literals. *)
+Definition DF (f : float) : D := dnorm (ofF f).
+
 Close Scope Z_scope.
 Open Scope Q_scope.
 
